@@ -4,6 +4,17 @@ from __future__ import annotations
 import time
 
 _perf = time.perf_counter
+_DONE_CLASSES: set = set()
+
+
+def first_of_class(vclass: str) -> bool:
+    """Per process: only the first violation of a class is minimised (the others are reported
+    with their raw scenario and tape, which replay just as well); keeps a badly broken tree
+    from spending the whole budget in the minimiser."""
+    if vclass in _DONE_CLASSES:
+        return False
+    _DONE_CLASSES.add(vclass)
+    return True
 
 
 def minimize(scenario: dict, tape_values: list, run, vclass: str, simplify=None,
@@ -15,6 +26,8 @@ def minimize(scenario: dict, tape_values: list, run, vclass: str, simplify=None,
     """
     t0 = _perf()
     runs = 0
+    if not first_of_class(vclass):
+        return scenario, [list(x) for x in tape_values], 0
 
     def still_fails(sc, tv):
         nonlocal runs
